@@ -310,6 +310,8 @@ ALT_PASSES = [
       "HTMLTOOLS_DEBUG": "1", "BROWSER": "none", "SOURCE_DATE_EPOCH": "0"}, True),
     # everything happens in a worker thread (the library was imported by the main thread, which only waits)
     ("worker thread", [], {"HV_RUN_IN_THREAD": "1"}, False),
+    # Python's development mode (extra run-time checks, every warning shown)
+    ("python -X dev", ["-X", "dev"], {}, False),
 ]
 
 
